@@ -1557,7 +1557,9 @@ where
                                 });
                             }
 
-                            obj.put(DataElement::new(*tag, vr, DataSetSequence::empty()));
+                            // a data set sequence is always held under VR SQ
+                            // (also when the attribute is not in the dictionary)
+                            obj.put(DataElement::new(*tag, VR::SQ, DataSetSequence::empty()));
                         } else {
                             return Err(ApplyError::MissingSequence {
                                 selector: selector.clone(),
@@ -1614,8 +1616,14 @@ where
             AttributeAction::SetVr(new_vr) => {
                 if let Some(e) = self.entries.remove(&tag) {
                     let (header, value) = e.into_parts();
-                    let e = DataElement::new(header.tag, new_vr, value);
-                    self.put(e);
+                    match value {
+                        Value::Primitive(v) => {
+                            self.put(DataElement::new(header.tag, new_vr, v));
+                        }
+                        // data set sequences and pixel data fragment sequences
+                        // cannot be held under another VR: ignore the request
+                        value => self.restore_entry(header, value),
+                    }
                 } else {
                     self.put(DataElement::empty(tag, new_vr));
                 }
